@@ -456,7 +456,8 @@ pub fn explore(ex: &Ex) {
             real: &|_init, hist| claims_real(&ops, hist),
             on_state: None,
         };
-        bfs::run(ex.rep, &spec, depth_big, cap);
+        // claim adders accumulate (states do not merge): one level less than the other large alphabets
+        bfs::run(ex.rep, &spec, ex.pick(2usize, 4, 5), cap);
     }
     // PartyInfoBuilder
     {
@@ -606,7 +607,9 @@ pub fn explore(ex: &Ex) {
     }
     // the seven message builders and the signature builder (setters, adders, create helpers)
     for kind in msgbuild::ALL_KINDS {
-        msgbuild::run_c19(ex, kind, depth_big, cap);
+        // message builders have small state spaces: searched deeper (COSE_Sign accumulates signers)
+        let d = if kind == msgbuild::Kind::Sign { ex.pick(2usize, 4, 6) } else { ex.pick(2usize, 5, 8) };
+        msgbuild::run_c19(ex, kind, d, cap);
     }
     ex.bound("c19", "depth_large_alphabets", json!(depth_big));
     ex.bound("c19", "depth_small_alphabets", json!(depth_small));
